@@ -255,6 +255,55 @@ def may_reject_family(ctx, preds, classify, progs, label, what, name):
     ctx.cov[name + "_programs"] = len(texts)
 
 
+def strip_loc(m):
+    """MIR without source-location details"""
+    def walk(x):
+        if isinstance(x, dict):
+            return {k: walk(v) for k, v in x.items() if k != "source_ref_index"}
+        if isinstance(x, list):
+            return [walk(v) for v in x]
+        return x
+    return walk({k: v for k, v in m.items() if k not in ("source_files", "source_refs")})
+
+
+def other_spellings_case(ctx, n_random):
+    """metamorphic: the same program written in other (semantically identical) ways — operators through their special
+    methods or the operator module, augmented assignment, a Party object at every use, constructors with keywords,
+    outputs as a generator / tuple, the whole body in a helper, aliases of every name, parentheses, lambdas — compiles to
+    the same MIR, source locations apart, and is rejected if and only if the plain spelling is.  The plain MIR is the
+    one the specifications of this check are evaluated on, so equality with it transfers their verdict."""
+    import targeted
+    progs = [p for p in targeted.all_families() if "text" not in p] + progrun.generate(ctx.seed + 77, n_random, sizes=(3, 12))
+    texts, owner = [], []
+    for i, p in enumerate(progs):
+        plain_text = surface.to_python(p)
+        texts.append(plain_text); owner.append((i, None))
+        for st in surface.STYLES:
+            t = surface.to_python(p, st)
+            if t != plain_text:          # the style changes nothing in this program
+                texts.append(t); owner.append((i, st))
+    results = progrun.run_impl([None] * len(texts), texts=texts)
+    plain = {i: r for (i, st), r in zip(owner, results) if st is None}
+    nbad, ncmp = 0, 0
+    for (i, st), r, t in zip(owner, results, texts):
+        if st is None:
+            continue
+        ncmp += 1
+        r0 = plain[i]
+        same = ("ok" in r) == ("ok" in r0) and ("ok" not in r or strip_loc(r["ok"]) == strip_loc(r0["ok"]))
+        if not same:
+            nbad += 1
+            if nbad <= 6:
+                vlib.report_failure(ctx, f"C04/other-spelling:{st}",
+                                    f"the program written in the `{st}` style does not compile to the MIR of its plain spelling",
+                                    dict(case=dict(kind="program", style=st, python_source=t, plain_python_source=surface.to_python(progs[i]), surface_program=progs[i]),
+                                         observed=(r if "ok" not in r else {k: r["ok"][k] for k in ("operations", "outputs", "inputs", "parties", "literals")}),
+                                         expected=(r0 if "ok" not in r0 else {k: r0["ok"][k] for k in ("operations", "outputs", "inputs", "parties", "literals")}),
+                                         how_to_replay="PYTHONPATH=<repo> /venv/bin/python /verif/tools/run_one.py <file with python_source>; compare with plain_python_source, ignoring source_ref_index / source_files / source_refs"))
+    ctx.note(f"validate: {ncmp} other spellings ({len(surface.STYLES)} styles) of {len(progs)} programs against the MIR of the plain spelling: {nbad} differ")
+    ctx.cov["other_spellings"] = ncmp
+
+
 def plain_left_programs():
     import targeted
     progs = []
@@ -406,7 +455,7 @@ def after_failed_compilation_case(ctx, preds, classify):
     ctx.cov["after_failed_compilation_case"] = True
 
 
-def generic_run(ctx, preds, classify, n_quick=300, n_thorough=6000, level="proof", second_compilation=False, after_failed=False, plain_left=False, text_variants=False):
+def generic_run(ctx, preds, classify, n_quick=300, n_thorough=6000, level="proof", second_compilation=False, after_failed=False, plain_left=False, text_variants=False, other_spellings=False):
     """shared body of the program-level checks: extract, prove, validate preds on implementation MIRs, tie the model"""
     import targeted
     ok_x = vlib.step_extract(ctx)
@@ -424,6 +473,8 @@ def generic_run(ctx, preds, classify, n_quick=300, n_thorough=6000, level="proof
         second_compilation_case(ctx, preds, classify)
     if plain_left:
         plain_left_operand_case(ctx, preds, classify)
+    if other_spellings:
+        other_spellings_case(ctx, 12 if ctx.tier == "quick" else 150)
     if text_variants:
         may_reject_family(ctx, {k: v for k, v in preds.items() if "must" not in k}, classify, text_variant_programs(), "unusual-but-legal-spelling",
                           "outputs handed over as a generator / iterator / tuple, literals built from Python booleans", "text_variants")
